@@ -180,3 +180,116 @@ fn run() {
     r.flag("exhaustive", true);
     r.finish();
 }
+
+// ---- order after resharding by pseudonym, whatever arrives first ----------------------------------------
+// Three shards, shard 0 holds no report when the step starts (its own branch in the code), shards 1 and
+// 2 hold reports tagged with (source shard, position). The shard-to-shard traffic into shard 0 from
+// shard 1, or from shard 2, is held back for a while, so that the other peer's records arrive first.
+// Every shard must hold its records grouped by source shard in shard order, each group in its
+// original order - in all three timings, identically on the three helpers.
+
+mod order3 {
+    use super::*;
+    use crate::{helpers::in_memory_config::InspectContext, secret_sharing::replicated::ReplicatedSecretSharing};
+    const S3: usize = 3;
+
+    /// per helper, per shard: the left shares of the breakdown keys of the records held
+    async fn run3(seed: u64, delay_source: Option<u32>) -> Vec<Vec<Out<Vec<u128>>>> {
+        let mut config = TestWorldConfig::default();
+        config.seed = seed;
+        config.timeout = None;
+        config.stream_interceptor = std::sync::Arc::new(move |ctx: &InspectContext, _data: &mut Vec<u8>| {
+            if let (InspectContext::ShardMessage { source, dest, .. }, Some(d)) = (ctx, delay_source) {
+                if u32::from(*source) == d && u32::from(*dest) == 0 {
+                    std::thread::sleep(Duration::from_millis(700));
+                }
+            }
+        });
+        let world: TestWorld<WithShards<S3>> = TestWorld::with_shards(&config);
+        let mut rng = StdRng::seed_from_u64(seed ^ 0xc193);
+        let mut inputs: [Vec<Vec<Row>>; 3] = std::array::from_fn(|_| (0..S3).map(|_| Vec::new()).collect());
+        for src in 1..S3 {
+            for idx in 0..12usize {
+                let mk: [AdditiveShare<BA64>; 3] = BA64::truncate_from(5000 + (src * 40 + idx) as u128).share_with(&mut rng);
+                let vs: [AdditiveShare<BA3>; 3] = BA3::truncate_from(1u128).share_with(&mut rng);
+                let bs: [AdditiveShare<BA8>; 3] = BA8::truncate_from((src * 100 + idx) as u128).share_with(&mut rng);
+                for h in 0..3 {
+                    inputs[h][src].push(Row { match_key: mk[h].clone(), value: vs[h].clone(), breakdown_key: bs[h].clone() });
+                }
+            }
+        }
+        let mut futs: Vec<BoxFut<'_, Vec<u128>>> = Vec::new();
+        for (h, per_shard) in world.malicious_contexts().into_iter().enumerate() {
+            for (s, ctx) in per_shard.into_iter().enumerate() {
+                let inp = std::mem::take(&mut inputs[h][s]);
+                futs.push(Box::pin(async move {
+                    let r = compute_prf_and_reshard(ctx, inp).await.map_err(|e| format!("{e:?}"))?;
+                    Ok(r.iter().map(|x| x.breakdown_key.left().as_u128()).collect())
+                }));
+            }
+        }
+        let flat = fault::run_all(futs, Duration::from_secs(120), Duration::from_secs(5)).await;
+        let mut it = flat.into_iter();
+        let out = (0..3).map(|_| (0..S3).map(|_| it.next().unwrap()).collect()).collect();
+        drop(world);
+        out
+    }
+
+    #[test]
+    fn run_order() {
+        let mut r = Report::new("C19");
+        let rt = fault::runtime(8);
+        let seed = common::seed() + 73;
+        let mut per_timing: Vec<Vec<Vec<u128>>> = Vec::new();
+        for delay in [None, Some(1u32), Some(2)] {
+            let out = rt.block_on(run3(seed, delay));
+            r.inc("evaluations");
+            r.inc("distinct_nontrivial");
+            r.inc("prf_order_runs");
+            r.inc("states");
+            r.add("transitions", 24);
+            let replay = json!({"part":"prf-order","delayed_source_shard":delay,"seed":seed});
+            let mut tags: Vec<Vec<u128>> = Vec::new();
+            let mut failed = false;
+            for s in 0..S3 {
+                let (Some(a), Some(b), Some(c)) = (out[0][s].ok(), out[1][s].ok(), out[2][s].ok()) else {
+                    r.violation("prf-reshard:order:failed", &format!("traffic from shard {delay:?} to shard 0 held back: shard {s} ended {:?} / {:?} / {:?}", out[0][s].class(), out[1][s].class(), out[2][s].class()), replay.clone());
+                    failed = true;
+                    break;
+                };
+                if a.len() != b.len() || a.len() != c.len() {
+                    r.violation("prf-reshard:order:alignment", &format!("shard {s}: the helpers hold {} / {} / {} records", a.len(), b.len(), c.len()), replay.clone());
+                    failed = true;
+                    break;
+                }
+                // BA8 addition is XOR
+                tags.push((0..a.len()).map(|j| a[j] ^ b[j] ^ c[j]).collect());
+            }
+            if failed {
+                continue;
+            }
+            let total: usize = tags.iter().map(Vec::len).sum();
+            if total != 24 {
+                r.violation("prf-reshard:order:count", &format!("{total} records after resharding 24"), replay.clone());
+            }
+            for (s, t) in tags.iter().enumerate() {
+                let keys: Vec<(u128, u128)> = t.iter().map(|x| (x / 100, x % 100)).collect();
+                if keys.windows(2).any(|w| w[0] >= w[1]) {
+                    r.violation(
+                        "prf-reshard:order:not-by-source-shard",
+                        &format!("traffic from shard {delay:?} to shard 0 held back: shard {s} holds its records in the order (source shard, position) {keys:?}; expected grouped by source shard in shard order, each group in input order (so that the three helpers' shares stay aligned whatever arrives first)"),
+                        replay.clone(),
+                    );
+                }
+            }
+            r.set("prf_order_shapes", format!("delay={delay:?}:{:?}", tags.iter().map(Vec::len).collect::<Vec<_>>()));
+            per_timing.push(tags);
+        }
+        if per_timing.windows(2).any(|w| w[0] != w[1]) {
+            r.violation("prf-reshard:order:timing-dependent", "the order in which the shards hold their records differs between the three timings", json!({"part":"prf-order","seed":seed}));
+        }
+        r.sample(json!({"shards":3,"reports":"12 on shard 1, 12 on shard 2, none on shard 0","timings":"none / shard 1 -> 0 held back / shard 2 -> 0 held back"}));
+        r.flag("exhaustive", true);
+        r.finish();
+    }
+}
